@@ -772,3 +772,62 @@ def mutations(d, rng):
                     m[ei][1][bi][1].append(('transition', [('from', [s0], False), ('to', other)]))
                     out.append(('R11-second-transition-same-source', m))
     return out
+
+
+# ---------------------------------------------------------------------------------------
+# bounded-exhaustive small definitions
+
+def small_exhaustive():
+    """every definition over leaves {A, B}, at most one superstate P, at most one event `go` with one or
+    two transitions (sources from {A, B, P, [A, B]}, targets from {A, B, P}), one optional guard at event
+    level and one optional unless at transition level, times async x payload x context x dynamic.
+    Well-formed and ill-formed alike (undeclared P, ambiguous transitions, ...)."""
+    forests = [
+        [('leaf', 'A', None)],
+        [('leaf', 'A', None), ('leaf', 'B', None)],
+        [('leaf', 'A', ['u32']), ('leaf', 'B', None)],
+        [('sup', 'P', None, [('state', 'A', None)])],
+        [('sup', 'P', None, [('state', 'A', None), ('state', 'B', None)])],
+        [('sup', 'P', None, [('state', 'A', None), ('state', 'B', ['u32']), ('initial', 'B')])],
+        [('leaf', 'A', None), ('sup', 'P', None, [('state', 'B', None)])],
+        [('sup', 'P', None, [('state', 'A', None)]), ('leaf', 'B', None)],
+        [('sup', 'P', ['u32'], [('state', 'A', None), ('initial', 'A')]), ('leaf', 'B', None)],
+        [('sup', 'P', None, [('sup', 'Q', None, [('state', 'A', None)]), ('state', 'B', None)])],
+    ]
+    srcs = [['A'], ['B'], ['P'], ['A', 'B']]
+    tgts = ['A', 'B', 'P']
+    out = []
+    for forest in forests:
+        evs = [None]
+        for s1 in srcs:
+            for t1 in tgts:
+                evs.append([(s1, t1)])
+                for s2 in (['A'], ['B']):
+                    for t2 in ('A', 'B'):
+                        evs.append([(s1, t1), (s2, t2)])
+        for ev in evs:
+            for hooks in range(4 if ev else 1):
+                for opt in range(16 if ev else 4):
+                    d = [('name', 'M')]
+                    if opt & 1:
+                        d.append(('async', True))
+                    if opt & 2:
+                        d.append(('context', ['Ctx']))
+                    if opt & 4:
+                        d.append(('dynamic', True))
+                    d.append(('initial', 'A'))
+                    d.append(('states', forest))
+                    if ev:
+                        items = []
+                        if opt & 8:
+                            items.append(('payload', ['u32']))
+                        if hooks & 1:
+                            items.append(('guards', ['g'], True))
+                        for k, (s_, t_) in enumerate(ev):
+                            tr = [('from', s_, len(s_) > 1), ('to', t_)]
+                            if hooks & 2 and k == 0:
+                                tr.append(('unless', ['u'], True))
+                            items.append(('transition', tr))
+                        d.append(('events', [('go', items)], True))
+                    out.append(d)
+    return out
